@@ -433,7 +433,7 @@ func checkItems(r *lib.Run, c *remote.Client, idx int, items []item, rng *rand.R
 			r.Obs("roots_equal_to_reference", 1)
 		}
 	}
-	if r.WantSample() && multi && len(items) >= 5 {
+	if idx < 2 && multi && len(items) >= 5 {
 		r.Sample(map[string]any{"stream": "dirbuilder", "items": itemsString(items), "permutations": len(perms), "root_digest": first.Hash})
 	}
 }
@@ -464,20 +464,22 @@ type namedGroup struct {
 
 // A targetSpec is one target definition; the slices are in declaration order.
 type targetSpec struct {
-	Pkg      string            `json:"pkg"`
-	Disk     []fileSpec        `json:"disk"`
-	Deps     []depSpec         `json:"dep_targets"`
-	Srcs     []string          `json:"srcs"`
-	Named    []namedGroup      `json:"named_srcs"`
-	Tools    []string          `json:"tools"`
-	NTools   []namedGroup      `json:"named_tools"`
-	DepOrder []string          `json:"deps"`
-	Env      [][2]string       `json:"env"`
-	Labels   []string          `json:"labels"`
-	Cmd      string            `json:"cmd"`
-	Outs     []string          `json:"outs"`
-	Binary   bool              `json:"binary,omitempty"`
-	Extra    map[string]string `json:"-"`
+	Pkg      string       `json:"pkg"`
+	Disk     []fileSpec   `json:"disk"`
+	Deps     []depSpec    `json:"dep_targets"`
+	Srcs     []string     `json:"srcs"`
+	Named    []namedGroup `json:"named_srcs"`
+	Tools    []string     `json:"tools"`
+	NTools   []namedGroup `json:"named_tools"`
+	DepOrder []string     `json:"deps"`
+	Env      [][2]string  `json:"env"`
+	Labels   []string     `json:"labels"`
+	Cmd      string       `json:"cmd"`
+	Outs     []string     `json:"outs"`
+	Binary   bool         `json:"binary,omitempty"`
+	Test     bool         `json:"test,omitempty"`
+	Data     []string     `json:"data,omitempty"`
+	NData    []namedGroup `json:"named_data,omitempty"`
 }
 
 func (t targetSpec) String() string {
@@ -491,6 +493,12 @@ func (t targetSpec) String() string {
 		fmt.Fprintf(&sb, " tools[%s]=%v", g.Name, g.Srcs)
 	}
 	fmt.Fprintf(&sb, " deps=%v env=%v labels=%v cmd=%q outs=%v", t.DepOrder, t.Env, t.Labels, t.Cmd, t.Outs)
+	if t.Test {
+		fmt.Fprintf(&sb, " test data=%v", t.Data)
+		for _, g := range t.NData {
+			fmt.Fprintf(&sb, " data[%s]=%v", g.Name, g.Srcs)
+		}
+	}
 	sb.WriteString(" | disk:")
 	for _, f := range t.Disk {
 		if f.Link != "" {
@@ -616,6 +624,30 @@ func genTarget(rng *rand.Rand, pkg string) targetSpec {
 		t.Outs = append(t.Outs, "second.txt")
 	}
 	t.Binary = rng.Intn(5) == 0
+	if rng.Intn(10) < 3 {
+		// a test: at test time the inputs are the target's own outputs (at the root), its data and their run-time needs
+		t.Test, t.Binary = true, true
+		pool := append(append([]string(nil), fileSrcs...), depSrcs...)
+		rng.Shuffle(len(pool), func(i, j int) { pool[i], pool[j] = pool[j], pool[i] })
+		named := rng.Intn(2) == 0
+		dg := map[string][]string{}
+		for _, s := range pool[:1+rng.Intn(len(pool))] {
+			if named {
+				g := []string{"fixtures", "golden"}[rng.Intn(2)]
+				dg[g] = append(dg[g], s)
+			} else {
+				t.Data = append(t.Data, s)
+			}
+			if rng.Intn(5) == 0 {
+				t.Data = append(t.Data, s) // declared twice
+			}
+		}
+		for _, g := range []string{"fixtures", "golden"} {
+			if len(dg[g]) > 0 {
+				t.NData = append(t.NData, namedGroup{Name: g, Srcs: dg[g]})
+			}
+		}
+	}
 	return t
 }
 
@@ -635,12 +667,19 @@ func reorder(t targetSpec, rng *rand.Rand, lists, maps bool) targetSpec {
 		for _, g := range t.Named {
 			n.Named = append(n.Named, namedGroup{Name: g.Name, Srcs: shuf(g.Srcs)})
 		}
+		n.Data = shuf(t.Data)
+		n.NData = nil
+		for _, g := range t.NData {
+			n.NData = append(n.NData, namedGroup{Name: g.Name, Srcs: shuf(g.Srcs)})
+		}
 	}
 	if maps {
 		n.Named = append([]namedGroup(nil), n.Named...)
 		rng.Shuffle(len(n.Named), func(i, j int) { n.Named[i], n.Named[j] = n.Named[j], n.Named[i] })
 		n.NTools = append([]namedGroup(nil), t.NTools...)
 		rng.Shuffle(len(n.NTools), func(i, j int) { n.NTools[i], n.NTools[j] = n.NTools[j], n.NTools[i] })
+		n.NData = append([]namedGroup(nil), n.NData...)
+		rng.Shuffle(len(n.NData), func(i, j int) { n.NData[i], n.NData[j] = n.NData[j], n.NData[i] })
 		n.Env = append([][2]string(nil), t.Env...)
 		rng.Shuffle(len(n.Env), func(i, j int) { n.Env[i], n.Env[j] = n.Env[j], n.Env[i] })
 		n.DepOrder = shuf(t.DepOrder)
@@ -752,6 +791,22 @@ func materialise(t targetSpec) (*remote.Client, *core.BuildTarget, func()) {
 	}
 	bt.IsBinary = t.Binary
 	bt.BuildTimeout = 600e9
+	if t.Test {
+		bt.Test = &core.TestFields{Command: "$TEST --run", Timeout: 60e9, Outputs: []string{"extra.log"}}
+		for _, s := range t.Data {
+			bt.AddDatum(input(s))
+		}
+		for _, g := range t.NData {
+			for _, s := range g.Srcs {
+				bt.AddNamedDatum(g.Name, input(s))
+			}
+		}
+		own := &pb.Directory{}
+		for _, o := range t.Outs {
+			own.Files = append(own.Files, &pb.FileNode{Name: o, Digest: &pb.Digest{Hash: hashOf("own/" + o), SizeBytes: 42}, IsExecutable: true})
+		}
+		c.VerifSetOutputs(bt.Label, own)
+	}
 	graph.AddTarget(bt)
 	pkgOf(t.Pkg).AddTarget(bt)
 	if err := bt.ResolveDependencies(graph); err != nil {
@@ -762,12 +817,17 @@ func materialise(t targetSpec) (*remote.Client, *core.BuildTarget, func()) {
 }
 
 type evaluation struct {
-	root    *pb.Digest
-	action  *pb.Digest
-	cmd     *pb.Command
-	rootDir *pb.Directory
-	dirs    map[string]*pb.Directory
-	err     error
+	testRoot   *pb.Digest
+	testAction *pb.Digest
+	testCmd    *pb.Command
+	testDirs   map[string]*pb.Directory
+	testRootD  *pb.Directory
+	root       *pb.Digest
+	action     *pb.Digest
+	cmd        *pb.Command
+	rootDir    *pb.Directory
+	dirs       map[string]*pb.Directory
+	err        error
 }
 
 func evaluate(t targetSpec, withAction bool) evaluation {
@@ -788,7 +848,28 @@ func evaluate(t targetSpec, withAction bool) evaluation {
 		}
 		ev.cmd, ev.action = cmd, dg
 	}
+	if t.Test {
+		root, dirs, err := c.VerifInputRoot(bt, true)
+		if err != nil {
+			ev.err = err
+			return ev
+		}
+		ev.testRootD, ev.testDirs, ev.testRoot = root, dirs, c.VerifDigest(root)
+		if withAction {
+			cmd, dg, err := c.VerifBuildAction(bt, true, false)
+			if err != nil {
+				ev.err = err
+				return ev
+			}
+			ev.testCmd, ev.testAction = cmd, dg
+		}
+	}
 	return ev
+}
+
+// testView returns the test-time half of an evaluation in the fields the checks look at.
+func (ev evaluation) testView() evaluation {
+	return evaluation{root: ev.testRoot, action: ev.testAction, cmd: ev.testCmd, rootDir: ev.testRootD, dirs: ev.testDirs, err: ev.err}
 }
 
 func cmdText(c *pb.Command) string {
@@ -879,12 +960,18 @@ func checkTarget(r *lib.Run, repo string, idx int, rng *rand.Rand) {
 		return
 	}
 	defer os.RemoveAll(filepath.Join(repo, fmt.Sprintf("case%d", idx)))
-	nDecl := len(t.Srcs) + len(t.Tools) + len(t.DepOrder)
+	nDecl := len(t.Srcs) + len(t.Tools) + len(t.DepOrder) + len(t.Data)
 	for _, g := range t.Named {
+		nDecl += len(g.Srcs)
+	}
+	for _, g := range t.NData {
 		nDecl += len(g.Srcs)
 	}
 	r.Case(t.String(), nDecl >= 3)
 	r.Obs("target_definitions", 1)
+	if t.Test {
+		r.Obs("test_target_definitions", 1)
+	}
 	base := evaluate(t, true)
 	if base.err != nil {
 		r.Inconclusive(fmt.Sprintf("target %d could not be evaluated: %v", idx, base.err))
@@ -894,13 +981,13 @@ func checkTarget(r *lib.Run, repo string, idx int, rng *rand.Rand) {
 	wit := func(other targetSpec) map[string]any {
 		return map[string]any{"definition": t.String(), "reordered": other.String(), "spec": t}
 	}
-	canon := func(ev evaluation, spec targetSpec) {
+	canon := func(phase string, ev evaluation, spec targetSpec) {
 		r.Obs("input_root_directory_messages_checked", int64(len(ev.dirs)-1))
 		for name, d := range ev.dirs {
 			if k, w := canonical(d); k != "" {
 				m := wit(spec)
-				m["directory"], m["message"] = name, dirText(d)
-				r.Violation("input-root/not-canonical/"+k, fmt.Sprintf("input root directory %q of %s is not canonical: %s", name, spec.String(), w), m, idx)
+				m["directory"], m["message"], m["phase"] = name, dirText(d), phase
+				r.Violation("input-root/not-canonical/"+k, fmt.Sprintf("%s input root directory %q of %s is not canonical: %s", phase, name, spec.String(), w), m, idx)
 			}
 		}
 		var walk func(d *pb.Directory, p string)
@@ -914,50 +1001,68 @@ func checkTarget(r *lib.Run, repo string, idx int, rng *rand.Rand) {
 				r.Obs("child_digests_checked", 1)
 				if !proto.Equal(x.Digest, digestOf(child)) {
 					m := wit(spec)
-					m["directory"] = cp
-					r.Violation("input-root/child-digest-mismatch", fmt.Sprintf("directory node %q carries digest %s but the directory message hashes to %s in %s", cp, short(x.Digest), short(digestOf(child)), spec.String()), m, idx)
+					m["directory"], m["phase"] = cp, phase
+					r.Violation("input-root/child-digest-mismatch", fmt.Sprintf("%s: directory node %q carries digest %s but the directory message hashes to %s in %s", phase, cp, short(x.Digest), short(digestOf(child)), spec.String()), m, idx)
 				}
 				walk(child, cp)
 			}
 		}
 		walk(ev.rootDir, ".")
 	}
-	canon(base, t)
-	if base.root != nil {
+	type phase struct {
+		name string
+		view func(evaluation) evaluation
+	}
+	phases := []phase{{"build", func(e evaluation) evaluation { return e }}}
+	if t.Test {
+		phases = append(phases, phase{"test", evaluation.testView})
+	}
+	for _, ph := range phases {
+		b := ph.view(base)
+		canon(ph.name, b, t)
 		r.Obs("input_roots_computed", 1)
-		r.Obs("input_root_files", int64(countFiles(base)))
+		r.Obs("input_root_files", int64(countFiles(b)))
 	}
 	// (1) declaration order of the lists: the input root must not move
 	for k := 0; k < 6; k++ {
 		o := reorder(t, rng, true, true)
-		ev := evaluate(o, false)
-		if ev.err != nil {
-			r.Inconclusive(fmt.Sprintf("reordered target %d could not be evaluated: %v", idx, ev.err))
+		full := evaluate(o, false)
+		if full.err != nil {
+			r.Inconclusive(fmt.Sprintf("reordered target %d could not be evaluated: %v", idx, full.err))
 			continue
 		}
-		r.Obs("list_order_permutations_evaluated", 1)
-		canon(ev, o)
-		if !proto.Equal(ev.root, base.root) {
-			m := wit(o)
-			m["root"], m["root_reordered"] = treeText(base), treeText(ev)
-			r.Violation("input-root/depends-on-declaration-order/"+treeDiffClass(base, ev), fmt.Sprintf("input root %s for [%s] but %s for the same declarations in another order [%s]", short(base.root), t.String(), short(ev.root), o.String()), m, idx)
+		for _, ph := range phases {
+			b, ev := ph.view(base), ph.view(full)
+			r.Obs("list_order_permutations_evaluated", 1)
+			canon(ph.name, ev, o)
+			if !proto.Equal(ev.root, b.root) {
+				m := wit(o)
+				m["root"], m["root_reordered"], m["phase"] = treeText(b), treeText(ev), ph.name
+				r.Violation("input-root/depends-on-declaration-order/"+ph.name+"/"+treeDiffClass(b, ev), fmt.Sprintf("%s input root %s for [%s] but %s for the same declarations in another order [%s]", ph.name, short(b.root), t.String(), short(ev.root), o.String()), m, idx)
+			}
 		}
 	}
 	// (2) one definition: the action digest must be the same whenever it is evaluated
-	sameAction := func(ev evaluation, how string, spec targetSpec) {
-		r.Obs("action_digests_compared", 1)
-		if ev.err != nil {
-			r.Inconclusive(fmt.Sprintf("target %d (%s) could not be evaluated: %v", idx, how, ev.err))
+	sameAction := func(full evaluation, how string, spec targetSpec) {
+		if full.err != nil {
+			r.Inconclusive(fmt.Sprintf("target %d (%s) could not be evaluated: %v", idx, how, full.err))
 			return
 		}
-		if !proto.Equal(ev.action, base.action) {
-			m := wit(spec)
-			m["how"], m["command"], m["command_other"] = how, cmdText(base.cmd), cmdText(ev.cmd)
-			what := cmdDiff(base.cmd, ev.cmd)
-			if !proto.Equal(ev.root, base.root) {
-				what = "input-root"
+		for _, ph := range phases {
+			b, ev := ph.view(base), ph.view(full)
+			if ev.action == nil {
+				continue
 			}
-			r.Violation("action-digest/not-deterministic/"+what, fmt.Sprintf("action digest of one definition differs between evaluations (%s; differs in: %s): %s vs %s for %s", how, what, short(base.action), short(ev.action), t.String()), m, idx)
+			r.Obs("action_digests_compared", 1)
+			if !proto.Equal(ev.action, b.action) {
+				m := wit(spec)
+				m["how"], m["command"], m["command_other"], m["phase"] = how, cmdText(b.cmd), cmdText(ev.cmd), ph.name
+				what := cmdDiff(b.cmd, ev.cmd)
+				if ev.root != nil && !proto.Equal(ev.root, b.root) {
+					what = "input-root"
+				}
+				r.Violation("action-digest/not-deterministic/"+ph.name+"/"+what, fmt.Sprintf("%s action digest of one definition differs between evaluations (%s; differs in: %s): %s vs %s for %s", ph.name, how, what, short(b.action), short(ev.action), t.String()), m, idx)
+			}
 		}
 	}
 	for k := 0; k < 4; k++ {
@@ -971,7 +1076,10 @@ func checkTarget(r *lib.Run, repo string, idx int, rng *rand.Rand) {
 	c, bt, release := materialise(t)
 	for k := 0; k < 4; k++ {
 		cmd, dg, err := c.VerifBuildAction(bt, false, false)
-		ev := evaluation{cmd: cmd, action: dg, err: err, root: base.root}
+		ev := evaluation{cmd: cmd, action: dg, err: err}
+		if t.Test && err == nil {
+			ev.testCmd, ev.testAction, ev.err = c.VerifBuildAction(bt, true, false)
+		}
 		sameAction(ev, "re-evaluated on the same client", t)
 	}
 	release()
